@@ -206,6 +206,8 @@ def builder_terms(repo, rep):
         out.append(('python_to_sdocs{%s}' % _short_facts(pr), pts.where, pr))
     rep.analysed['builder_scenarios'] = len(out)
     rep.analysed['interpreter_paths'] = it.paths_run + itd.paths_run + itt.paths_run
+    rep._commentdoc_calls = list(getattr(it, 'commentdoc_calls', [])) + list(getattr(itd, 'commentdoc_calls', [])) + \
+        list(getattr(itt, 'commentdoc_calls', []))
     return out
 
 
@@ -404,35 +406,31 @@ def _commentdoc_shape(repo, rep):
             rep.check(ok, 'C09.d', 'commentdoc:index:%s[%d]' % (s.value.id, s.slice.value), '%s:%d' % (m.relpath, s.lineno), why,
                       'commentdoc indexes %s[%d] although the word list of a blank comment line is empty (%s): comment text '
                       'makes printing raise IndexError' % (s.value.id, s.slice.value, why), nontrivial=True)
-    # the explicit ValueError for empty text is guarded at every call site
-    for mod in repo.modules.values():
-        if '.extras' in mod.name:
-            continue
-        for fn in mod.funcs.values():
-            gg = None
-            for c in ast.walk(fn.node):
-                if isinstance(c, ast.Call) and call_name(c) == 'commentdoc' and c.args:
-                    a = c.args[0]
-                    n += 1
-                    if isinstance(a, ast.Constant):
-                        rep.ok('C09.d', '%s:commentdoc(%r)' % (fn.qualname, a.value), '%s:%d' % (mod.relpath, c.lineno), 'constant non-empty text')
-                        continue
-                    gg = gg or Guards(fn.node, descend_nested=True)
-                    t = src(a)
-                    fs = gg.of(c)
-                    root = t.split('.')[0]
-                    if isinstance(a, ast.Name):
-                        for st in ast.walk(fn.node):
-                            if isinstance(st, ast.Assign) and src(st.targets[0]) == a.id and src(st.value).endswith('.annotation.value'):
-                                root = src(st.value).split('.')[0]
-                    ok = any(ff.pol and (ff.text == t or ff.text in ('is_commented(%s)' % root, ) or
-                                         ('is_commented(%s)' % root) in ff.text) for ff in fs) or \
-                        any(ff.pol and ff.text in (t, 'bool(%s)' % t) for ff in fs)
-                    rep.check(ok, 'C09.d', '%s:commentdoc(%s)' % (fn.qualname, t), '%s:%d' % (mod.relpath, c.lineno),
-                              'comment text tested for truthiness before commentdoc',
-                              '%s calls commentdoc(%s) without first testing the text: an empty comment raises ValueError (%s)'
-                              % (fn.key, t, gg.texts(c)), nontrivial=True)
-    rep.floor('C09.d', n, 10)
+    # the explicit ValueError for empty text: in every interpreted scenario (builders with comment annotations, printers with a
+    # trailing comment whose emptiness is unknown) the text handed to commentdoc is known to be non-empty at the call
+    calls = list(getattr(rep, '_commentdoc_calls', []))
+    itp = S.interp(repo, 'printer', {'pretty_str': S.p_pretty_str_as_sub})
+    from engine.interp import ValueV, TypeV, Sym, SymStr, CtxV, Undecided
+    for key, base in (('list', 'list'), ('dict', 'dict')):
+        fnp = S.printer_for(repo, key)
+        for nel in (0, 1, 2):
+            v = ValueV('value', TypeV(base), [Sym('x%d' % i) for i in range(nel)])
+            try:
+                S.run_printer(repo, itp, fnp, v, trailing_comment=SymStr('maybe-empty-comment', nonempty=None))
+            except Undecided as e:
+                rep.undecided('C09.d', '%s:commentdoc-guard' % fnp.name, fnp.where, str(e))
+    calls += list(getattr(itp, 'commentdoc_calls', []))
+    seen_calls = {}
+    for pv, known, ln in calls:
+        kk = (ln, pv[:40])
+        seen_calls[kk] = seen_calls.get(kk, True) and known
+    for (ln, pv), known in sorted(seen_calls.items()):
+        n += 1
+        rep.check(known, 'C09.d', 'commentdoc-text-nonempty@%s' % pv, '%s:%d' % (m.relpath, ln),
+                  'comment text known to be non-empty when commentdoc is called',
+                  'commentdoc(%s) is reached at line %d on a path where the text may be empty: commentdoc raises ValueError for an empty text '
+                  '(the caller must test the comment for truthiness first)' % (pv, ln), nontrivial=True)
+    rep.floor('C09.d', n, 8)
 
 
 # -------------------------------------------------------------------------------------- C09.f
@@ -485,6 +483,11 @@ def _trailing_comment_used(repo, rep):
                         return True
                     if any(k.arg == TC and text_from_comment(k.value, at_line) for k in c.keywords):
                         return True
+                    callee = m.funcs.get(call_name(c))
+                    if callee is not None:
+                        for i, a in enumerate(c.args):
+                            if i < len(callee.params) and callee.params[i] == TC and text_from_comment(a, at_line):
+                                return True
             for nm in ast.walk(expr):
                 if isinstance(nm, ast.Name):
                     if nm.id in seen or depth > 12:
